@@ -205,6 +205,8 @@ func cellDSL(c emitCell, opts map[string]string) string {
 		body = c.spelled() + " " + n + " @lengthOf(targetField), u8 targetField,"
 	case "checksum":
 		body = c.spelled() + " " + n + " @calculatedFrom(\"crc\"),"
+	case "empty":
+		body = ""
 	}
 	return head + "root packet CellPacket { " + body + " }\npacket A { u8 a, }\npacket B { u8 b, }\n"
 }
